@@ -104,8 +104,8 @@ func enumDG13(thorough bool, emit func(File)) {
 // ---- DG15 ----
 
 type DG15Spec struct {
-	Kind string // "rsa" | "ec-named" | "ec-explicit"
-	Bits int    // RSA modulus bits
+	Kind  string // "rsa" | "ec-named" | "ec-explicit"
+	Bits  int    // RSA modulus bits
 	Curve string // "P-256" | "P-384" | "brainpoolP256r1" (named only)
 }
 type DG15View struct{ SPKI []byte }
